@@ -90,7 +90,9 @@ def build_init_and_step_fn(
         Returns:
             Dict: Updated states.
         """
-        state = all_states
+        # `module.step` assigns into the dictionary it is given: step on a copy, such that
+        # the caller's `all_states` is still the state before the step.
+        state = dict(all_states)
         state = module.step(
             state,
             delta_t,
